@@ -267,3 +267,35 @@ func GoodMapLookupOnly(r *wire.ReadContext, wl map[int64]bool) (bool, error) {
 	}
 	return wl[sh.FileIndex], nil
 }
+
+func hasEntry(files []string, index int64) bool {
+	return index >= 0 && index < int64(len(files))
+}
+
+// GoodBoolHelperOnValue: the guard is a boolean helper over the value (return a && b).
+func GoodBoolHelperOnValue(r *wire.ReadContext, files []string) (string, error) {
+	op := &pwr.SyncOp{}
+	if err := r.ReadMessage(op); err != nil {
+		return "", err
+	}
+	if !hasEntry(files, op.FileIndex) {
+		return "", errors.New("out of range")
+	}
+	return files[op.FileIndex], nil
+}
+
+func hasEntryUpper(files []string, index int64) bool {
+	return index < int64(len(files))
+}
+
+// BadBoolHelperOneSided: the helper only checks the upper bound.
+func BadBoolHelperOneSided(r *wire.ReadContext, files []string) (string, error) {
+	op := &pwr.SyncOp{}
+	if err := r.ReadMessage(op); err != nil {
+		return "", err
+	}
+	if !hasEntryUpper(files, op.FileIndex) {
+		return "", errors.New("out of range")
+	}
+	return files[op.FileIndex], nil
+}
